@@ -128,7 +128,7 @@ def main():
                 "thorough_cmd": f"./run.sh {pid} thorough",
                 "evidence_file": f"/verif/evidence/{pid}.json",
                 "replay_cmd_template": "./run.sh replay {path}",
-                "engine": "vcheck",
+                "engine": "libfuzzer-asan" if pid == "C02" else "vcheck",
                 "level_claimed": {"category": cat, "text": text, "design_ref": ref},
                 "level_note": note,
                 "technique": tech,
@@ -137,7 +137,7 @@ def main():
             na.append({"property_id": pid, "reason": NOT_APPLICABLE.get(pid, PENDING_REASON)})
     m = {
         "version": 1,
-        "setup_cmd": "cd /verif/harness && CARGO_NET_OFFLINE=true cargo build --release -p vcheck && CARGO_NET_OFFLINE=true cargo build --profile checked -p vcheck",
+        "setup_cmd": "cd /verif/harness && CARGO_NET_OFFLINE=true cargo build --release -p vcheck && CARGO_NET_OFFLINE=true cargo build --profile checked -p vcheck && cd /verif/fuzz && CARGO_NET_OFFLINE=true cargo +nightly fuzz build --fuzz-dir /verif/fuzz",
         "hooks": {
             "guard": "--cfg jxl_oxide_verif",
             "enable": "rustflags = [\"--cfg\", \"jxl_oxide_verif\"] in /verif/harness/.cargo/config.toml (and RUSTFLAGS for the cargo-fuzz crate); the harness path-depends on /repo/crates/*, so every check rebuilds from /repo's working tree",
@@ -148,6 +148,8 @@ def main():
         "engines": [
             {"name": "vcheck", "path": "/verif/harness/vcheck", "serves_properties": sorted(CLAIMED.keys()),
              "kind_free_text": "proptest-driven generated-input search over choice sequences (16 runner threads, fixed seeds from VERIF_SEED), shrinking, replay files, optional worker-process isolation"},
+            {"name": "libfuzzer-asan", "path": "/verif/fuzz", "serves_properties": ["C02"],
+             "kind_free_text": "cargo-fuzz 0.13 project (libFuzzer + AddressSanitizer, nightly toolchain) with targets decode_render and valid_shapes; driven by /verif/checks/C02.sh with fixed -runs per process"},
             {"name": "jxlref", "path": "/verif/harness/jxlref", "serves_properties": sorted(CLAIMED.keys()),
              "kind_free_text": "independent reference writer/encoder and reference models for the JPEG XL format (links no jxl-oxide code)"},
         ],
